@@ -16,7 +16,10 @@ def seq_scenario(rng, outage=False):
         k = rng.random()
         if k < 0.5:
             n += 1
-            ops.append('w%d:%d' % (n, rng.choice([0, 1, 10, 100, 4000, 65536])))
+            if rng.random() < 0.25:    # through Append, with an event stamped some seconds earlier
+                ops.append('a%d:%d:%d' % (n, rng.choice([1, 10, 100, 4000]), rng.choice([0, 1, 3, 7])))
+            else:
+                ops.append('w%d:%d' % (n, rng.choice([0, 1, 10, 100, 4000, 65536])))
         elif k < 0.75 and boundaries < 6:
             ops.append('B'); boundaries += 1
         elif k < 0.8 and boundaries < 5:
